@@ -54,6 +54,8 @@ impl VisitMut for BlockTransformVisitor<'_> {
         if self.visit_is_cancelled() {
             return;
         }
+        #[cfg(datadog_dd_native_iast_rewriter_js_verif)]
+        crate::verif_hooks::emit("block_enter", expr.stmts.len() as i64, 0, "");
         let mut ident_provider = DefaultIdentProvider::new(&self.config.local_var_prefix);
         let mut operation_visitor = OperationTransformVisitor {
             ident_provider: &mut ident_provider,
@@ -68,9 +70,13 @@ impl VisitMut for BlockTransformVisitor<'_> {
             &ident_provider.variable_decl,
             &self.config.local_var_prefix,
         ) {
+            #[cfg(datadog_dd_native_iast_rewriter_js_verif)]
+            crate::verif_hooks::emit("block_cancel", ident_provider.idents.len() as i64, 0, "");
             return self.cancel_visit("Variable name duplicated");
         } else {
             insert_variable_declaration(&ident_provider.idents, expr);
+            #[cfg(datadog_dd_native_iast_rewriter_js_verif)]
+            crate::verif_hooks::emit("block_leave", ident_provider.idents.len() as i64, 0, "");
         }
 
         expr.visit_mut_children_with(self);
@@ -80,6 +86,8 @@ impl VisitMut for BlockTransformVisitor<'_> {
         node.visit_mut_children_with(self);
 
         if self.transform_status.status == Status::Modified {
+            #[cfg(datadog_dd_native_iast_rewriter_js_verif)]
+            crate::verif_hooks::emit("prologue", self.config.file_prefix_code.len() as i64, 0, "");
             match node {
                 Program::Script(script) => {
                     let mut index = 0;
